@@ -47,11 +47,16 @@ class Site:
         return {HOST: out, OTHER: other}
 
     def describe(self):
-        return {p: {k: v for k, v in d.items()} for p, d in self.pages.items()}
+        d = {p: {k: v for k, v in d.items()} for p, d in self.pages.items()}
+        if self.start != '/':
+            d['__start__'] = self.start
+        return d
 
     @classmethod
     def from_desc(cls, desc):
         s = cls()
+        desc = dict(desc)
+        s.start = desc.pop('__start__', '/')
         for p, d in desc.items():
             d = dict(d)
             if 'links' in d:
@@ -72,7 +77,7 @@ SPELLINGS = [
 ]
 
 
-def gen_site(rng, size=None, redirects=True, inline=True, offsite=True, deep=False):
+def gen_site(rng, size=None, redirects=True, inline=True, offsite=True, deep=False, start_deep=False):
     s = Site()
     n = size or rng.randint(2, 9)
     paths = ['/'] + ['/d/p%d' % i if rng.random() < 0.5 else '/p%d' % i for i in range(1, n)]
@@ -129,11 +134,20 @@ def gen_site(rng, size=None, redirects=True, inline=True, offsite=True, deep=Fal
     # make sure the root links somewhere
     if not s.pages['/']['links'] and len(paths) > 1:
         s.pages['/']['links'].append((paths[1], False))
+    if start_deep:
+        # start below /d/ (what --no-parent is about); that page links up, sideways and down
+        s.pages.setdefault('/d/start.html', {'kind': 'html', 'links': []})
+        s.pages['/d/start.html'] = {'kind': 'html', 'links': [(rng.choice(SPELLINGS[:5])(t), False)
+                                                             for t in rng.sample(paths, min(len(paths), rng.randint(2, 5)))]
+                                     + [('/d/sub/leaf.txt', False), ('/top.txt', False)] + [(im, True) for im in imgs[:1]]}
+        s.pages['/d/sub/leaf.txt'] = {'kind': 'leaf'}
+        s.pages['/top.txt'] = {'kind': 'leaf'}
+        s.start = '/d/start.html'
     return s
 
 
 def gen_options(rng, levelfree=False):
-    o = {'recursive': True, 'level': None, 'page_requisites': rng.random() < 0.5, 'no_parent': False,
+    o = {'recursive': True, 'level': None, 'page_requisites': rng.random() < 0.5, 'no_parent': rng.random() < 0.25,
          'accept_regex': None, 'reject_regex': None}
     if not levelfree and rng.random() < 0.35:
         o['level'] = rng.randint(1, 3)
@@ -172,6 +186,7 @@ def norm(base, raw):
 
 class RefCrawl:
     def __init__(self, site, opts, tries=2, max_redirects=20, start_hosts=(HOST,)):
+        self.root = 'http://%s%s' % (HOST, site.start)      # single start URL: every record's root
         self.site = site
         self.o = opts
         self.tries = tries
@@ -211,6 +226,11 @@ class RefCrawl:
                     return False
             elif not level <= o['level']:
                 return False
+        if o.get('no_parent') and not inline_level and self.root is not None:
+            top = urllib.parse.urlsplit(self.root)
+            if u.hostname == top.hostname and (u.scheme != top.scheme or (u.port or 80) == (top.port or 80)):
+                if not (u.path.rsplit('/', 1)[0] + '/').startswith(top.path.rsplit('/', 1)[0] + '/'):
+                    return False
         if o['accept_regex'] and not re.search(o['accept_regex'], url):
             return False
         if o['reject_regex'] and re.search(o['reject_regex'], url):
